@@ -196,7 +196,8 @@ ASSUMPTIONS = [
 
 
 def _rec_send(self, knxipframe, addr=None):
-    ghost("T").append(("send", knxipframe, self.initialized))
+    # (the real send wraps with get_sequence_information(): the counter as it stands at this moment)
+    ghost("T").append(("send", knxipframe, self.initialized, self._sequence_number, self._sequence_number_received))
 
 
 def _rec_super_stop(self):
@@ -216,11 +217,14 @@ def close_goes_through_the_wrapping_send(s):
     initialized (so it is wrapped - send lemma above), at most once, and only on an open, initialized
     session; afterwards the session is not initialized and the transport is stopped."""
     was_init, was_open = s.initialized, s.transport is not None
+    n_out, n_in = s._sequence_number, s._sequence_number_received
     s.stop()
     tr = ghost("T")
     sends = [x for x in tr if isinstance(x, tuple) and x[0] == "send"]
     if was_init and was_open:
         assert len(sends) == 1 and sends[0][2] is True
+        # the close frame continues the session's numbering: the counters are untouched when it is wrapped
+        assert sends[0][3] == n_out and sends[0][4] == n_in
         b = sends[0][1].body
         assert isinstance(b, SessionStatus) and b.status == SecureSessionStatusCode.STATUS_CLOSE
     else:
